@@ -17,7 +17,7 @@ func init() {
 	register(&Rule{ID: "A-ERR-IS", Props: []string{"C08"}, Floor: 8,
 		Doc: "every error type of the root package matches exactly one exported sentinel in its Is method and has no Unwrap; every internal evaluator error type matches at most one internal sentinel",
 		Run: ruleAErrIs})
-	register(&Rule{ID: "A-ERRMAP", Props: []string{"C08", "C04", "C03", "C05", "C02", "C19"}, Floor: 7,
+	register(&Rule{ID: "A-ERRMAP", Props: []string{"C08", "C04", "C03", "C05", "C02", "C19", "C09"}, Floor: 7,
 		Doc: "every concrete error type that can leave parser.Parse / evaluator.Evaluate is pushed through the decision chain of parseError / evaluateError (type assertions and errors.Is tests, in order, using the internal Is methods); the resulting public sentinel must be the category the specification names for that fault; wrappers with Unwrap may only wrap errors of library calls",
 		Run: ruleAErrMap})
 	register(&Rule{ID: "A-NIL-RESULT", Props: []string{"C08"}, Floor: 2,
